@@ -143,6 +143,8 @@ type S struct {
 	watchdog *time.Timer
 	wg       sync.WaitGroup
 
+	tickers []*VTicker
+
 	Blocked []BlockedInfo // threads still pending when the execution ended
 	Data    interface{}   // harness payload
 }
@@ -498,6 +500,63 @@ func (s *S) Now() time.Time {
 
 func (s *S) SetClock(ns int64) { s.mu.Lock(); s.clock = ns; s.mu.Unlock() }
 func (s *S) Clock() int64      { s.mu.Lock(); defer s.mu.Unlock(); return s.clock }
+
+// ---- virtual tickers ---------------------------------------------------------
+
+// VTicker is a time.Ticker owned by the scheduler: it fires only when the harness says so (FireTickers), which
+// makes "the timer lands now" an explored choice instead of a matter of wall-clock time.
+type VTicker struct {
+	C       chan time.Time
+	D       time.Duration
+	stopped bool
+}
+
+func (s *S) NewTicker(d time.Duration) *VTicker {
+	t := &VTicker{C: make(chan time.Time, 1), D: d}
+	s.mu.Lock()
+	s.tickers = append(s.tickers, t)
+	s.mu.Unlock()
+	return t
+}
+
+func (s *S) StopTicker(t *VTicker) { s.mu.Lock(); t.stopped = true; s.mu.Unlock() }
+
+// TickersArmed: some running ticker has room for a tick. For use in WaitUntil conditions only (they are
+// evaluated by the scheduling loop, which holds the lock).
+func (s *S) TickersArmed() bool {
+	for _, t := range s.tickers {
+		if !t.stopped && len(t.C) == 0 {
+			return true
+		}
+	}
+	return false
+}
+
+// FireTickers advances the clock by the longest period among the running tickers and delivers one tick to
+// each of them (a tick that finds the buffer full is dropped, as with time.Ticker). Returns how many fired.
+func (s *S) FireTickers() int {
+	s.mu.Lock()
+	defer s.mu.Unlock()
+	var d time.Duration
+	for _, t := range s.tickers {
+		if !t.stopped && t.D > d {
+			d = t.D
+		}
+	}
+	s.clock += int64(d)
+	n := 0
+	for _, t := range s.tickers {
+		if t.stopped {
+			continue
+		}
+		select {
+		case t.C <- time.Unix(0, s.clock):
+			n++
+		default:
+		}
+	}
+	return n
+}
 
 // ---- the scheduling loop ----------------------------------------------------
 
